@@ -1,6 +1,8 @@
 mod common;
 #[cfg(not(feature = "inprocess"))]
 mod frag;
+#[cfg(not(feature = "inprocess"))]
+mod sched;
 mod values;
 mod chan;
 mod script;
@@ -25,6 +27,10 @@ fn main() {
         },
         #[cfg(not(feature = "inprocess"))]
         "frag" => frag::run(),
+        #[cfg(not(feature = "inprocess"))]
+        "sched" => sched::run(),
+        #[cfg(not(feature = "inprocess"))]
+        "sched-child" => sched::child_main(&args[2..]),
         "values" => values::run(),
         "chan" => chan::run(args.get(2).map(|s| s.as_str()).unwrap_or("thread")),
         "agent" => chan::agent_main(&args[2]),
